@@ -41,7 +41,7 @@ def params(draw, tier):
     p["logscale"] = draw(st.sampled_from([0.0, 0.0, -3.0, 3.0, 1.5]))
     p["rhs"] = draw(st.sampled_from(["static", "velocity"]))
     p["vel_amp"] = draw(st.sampled_from([0.01, 0.03]))
-    p["method"] = draw(st.sampled_from([None, None, None, "lsq", "lsq_linear"]))
+    p["method"] = draw(st.sampled_from([None, None, "lsq", "lsq", "lsq_linear"]))
     p["allow_negatives"] = draw(st.sampled_from([False, False, True]))
     p["omit_defaults"] = draw(st.booleans())      # allow_negatives=True is the default: left out of the call
     p["fit"] = draw(st.sampled_from(["dlite", "taubinSVD"]))
@@ -370,7 +370,7 @@ def run_serial(ctx):
 
 
 def run(ctx):
-    n = ctx.budget(quick=300, thorough=800)
+    n = ctx.budget(quick=500, thorough=800)
     drive(ctx, params(ctx.tier), check_case, n, label="tissue")
 
 
